@@ -23,3 +23,24 @@ package command
 //@ lemma [C15] covers_trans(a string, b string, c string): validCmd(a) && validCmd(b) && validCmd(c) && coversSpec(a, b) && coversSpec(b, c) ==> coversSpec(a, c)
 //@ lemma [C15] top_covers(b string): validCmd(b) ==> coversSpec("/", b)
 //@ lemma [C15] no_textual_prefix(a string, b string): a != "/" && hasPrefix(b, a) && len(b) > len(a) && b[len(a)] != '/' ==> !coversSpec(a, b)
+//@
+//@ // joinSpec(c, a, o, n): c with the non-empty strings among a[o..o+n) appended in order, each preceded by a separator
+//@ // unless the text so far is the bare "/" (read off the property: "the command with those segments appended");
+//@ // a, o = elems(segments), off(segments): the contents of the variadic slice
+//@ pure func joinSpec(c string, a StrArr, o int, n int) string =
+//@     n <= 0 ? c
+//@   : a[o+n-1] == "" ? joinSpec(c, a, o, n-1)
+//@   : len(joinSpec(c, a, o, n-1)) > 1 ? joinSpec(c, a, o, n-1) ++ "/" ++ a[o+n-1]
+//@   : joinSpec(c, a, o, n-1) ++ a[o+n-1]
+//@
+//@ // the size bounds keep `size` and the capacity computation inside int (2^20 segments of at most 2^32 bytes)
+//@ func (Command).Join
+//@   requires len(c) <= 4294967296 && len(segments) <= 1048576 && (forall j int :: 0 <= j && j < len(segments) ==> len(segments[j]) <= 4294967296)
+//@   ensures [C15] join: string(result) == joinSpec(string(c), elems(segments), off(segments), len(segments))
+//@   loop 0: invariant 0 <= k && k <= len(segments) && 0 <= size && size <= k * 4294967296 && (size == 0 ==> joinSpec(string(c), elems(segments), off(segments), k) == string(c))
+//@   loop 1: invariant 0 <= k && k <= len(segments) && fresh(buf) && bytes(buf) == joinSpec(string(c), elems(segments), off(segments), k)
+//@
+//@ // Segments: none for "/", otherwise the pieces of the text between separators, without the (empty) piece before the leading one
+//@ func (Command).Segments
+//@   ensures [C15] segments: string(c) == "/" ==> result == nil
+//@   ensures [C15] segments: string(c) != "/" ==> len(result) == splitCount(string(c), "/") - 1 && (forall i int :: {result[i]} 0 <= i && i < len(result) ==> result[i] == splitPiece(string(c), "/", i+1))
